@@ -184,7 +184,7 @@ func writeSearchKey(enc *imapwire.Encoder, criteria *imap.SearchCriteria) {
 		encodeItem().Atom("UID").SP().NumSet(uidSet)
 	}
 
-	if !criteria.Since.IsZero() && !criteria.Before.IsZero() && criteria.Before.Sub(criteria.Since) == 24*time.Hour {
+	if !criteria.Since.IsZero() && !criteria.Before.IsZero() && isNextDay(criteria.Since, criteria.Before) {
 		encodeItem().Atom("ON").SP().String(criteria.Since.Format(internal.DateLayout))
 	} else {
 		if !criteria.Since.IsZero() {
@@ -194,7 +194,7 @@ func writeSearchKey(enc *imapwire.Encoder, criteria *imap.SearchCriteria) {
 			encodeItem().Atom("BEFORE").SP().String(criteria.Before.Format(internal.DateLayout))
 		}
 	}
-	if !criteria.SentSince.IsZero() && !criteria.SentBefore.IsZero() && criteria.SentBefore.Sub(criteria.SentSince) == 24*time.Hour {
+	if !criteria.SentSince.IsZero() && !criteria.SentBefore.IsZero() && isNextDay(criteria.SentSince, criteria.SentBefore) {
 		encodeItem().Atom("SENTON").SP().String(criteria.SentSince.Format(internal.DateLayout))
 	} else {
 		if !criteria.SentSince.IsZero() {
@@ -273,6 +273,15 @@ func writeSearchKey(enc *imapwire.Encoder, criteria *imap.SearchCriteria) {
 	}
 
 	enc.Special(')')
+}
+
+// isNextDay reports whether before falls on the calendar day following since.
+// Search dates carry only the day: the time of day and the zone are not sent.
+func isNextDay(since, before time.Time) bool {
+	y, m, d := since.Date()
+	ny, nm, nd := time.Date(y, m, d+1, 0, 0, 0, 0, time.UTC).Date()
+	by, bm, bd := before.Date()
+	return by == ny && bm == nm && bd == nd
 }
 
 func flagSearchKey(flag imap.Flag) string {
